@@ -39,7 +39,7 @@ def run_property(pid, repo, tier):
     except AnalysisError as e:
         # a vanished anchor / unsupported construct: if rule instances already failed on this tree, those
         # reports stand (the tree is not the reference tree); otherwise the checker cannot decide
-        if not ctx.violations:
+        if not report.split_known(pid, ctx.violations)[1]:
             raise
         ctx.note(f"analysis stopped early: {e}")
     except Exception as e:
@@ -56,13 +56,19 @@ def run_property(pid, repo, tier):
                    "every rule instance can be evaluated on the analysed code (the construct a rule inspects still has the shape of the mechanism)",
                    detail=f"{type(e).__name__}: {e} while evaluating `{(rule_frame.line or '').strip()[:120]}` — the code this rule reads was restructured or removed; "
                           f"remaining rule instances were not evaluated", key=f"{pid}-SHAPE|{os.path.basename(rule_frame.filename)}|{rule_frame.name}")
-        elif not ctx.violations:
-            raise
+        elif not report.split_known(pid, ctx.violations)[1]:
+            raise                 # nothing but listed findings so far: a crash must not hide behind them
         else:
             ctx.note("analysis stopped early after reporting violations: " + traceback.format_exc(limit=3))
     if not ctx.obligations:
         raise AnalysisError(f"{pid}: no obligation was evaluated")
     known, new = report.split_known(pid, ctx.violations)
+    floor = report.obligation_floor(pid)
+    if not new and len(ctx.obligations) < floor:
+        # rule families do not vanish silently: a removed mechanism is a floor VIOLATION; fewer evaluated instances without any
+        # report means part of the analysis did not run
+        raise AnalysisError(f"{pid}: only {len(ctx.obligations)} rule instances were evaluated, at least {floor} were confirmed on the reference tree "
+                            f"(lbsa/obligation_floors.json) — part of the analysis did not run")
     extra = {}
     if tier == "thorough":
         from . import selftest
